@@ -146,6 +146,8 @@ bool vm_can_end(uint64_t me, const void *st)
 	return st ? pred_of(st) : false;
 }
 
+static uint64_t vm_cur_count; /* events the sending LP has processed, the current one included */
+
 static void send_rule(unsigned rule, uint64_t me, double now, unsigned type, const void *pl, unsigned size, uint64_t h)
 {
 	unsigned n = VM.n_lps;
@@ -227,6 +229,15 @@ static void send_rule(unsigned rule, uint64_t me, double now, unsigned type, con
 				big[39] += 1;
 				vm_env->schedule(nb, now + 1, type, big, 40);
 			}
+			break;
+		case VR_RELAY0:
+			/* pass the event on unchanged - same type, same payload bytes - to the neighbour: with zero delay while this LP
+			 * has seen at most `chain` events (the relayed event and the one being processed are then indistinguishable by
+			 * content), one tick later afterwards */
+			if(vm_cur_count <= VM.chain)
+				vm_env->schedule(nb, now, type, pl, size);
+			else if(now + 1 <= VM.horizon)
+				vm_env->schedule(nb, now + 1, type, pl, size);
 			break;
 		case VR_FAN2:
 			if(now + 1 <= VM.horizon) {
@@ -313,6 +324,7 @@ void vm_process_event(uint64_t me, double now, unsigned type, const void *pl, un
 		vm_env->set_state(s);
 		s->h = vm_mix(0xabcdef, me);
 		s->h = vm_mix(s->h, rng_step());
+		vm_cur_count = 0;
 		send_rule(VM.init_rule[me % VM_MAXLP], me, 0.0, VM_NTYPES - 1, NULL, 0, s->h);
 		if(vm_env->on_init)
 			vm_env->on_init(me, vm_full_digest(s), pred_of(s));
@@ -335,6 +347,7 @@ void vm_process_event(uint64_t me, double now, unsigned type, const void *pl, un
 		s->saw_t0 = 1;
 	s->h = vm_mix(s->h, rng_step());
 	memory_step(s);
+	vm_cur_count = s->count;
 	if(type < VM_NTYPES)
 		send_rule(VM.ev_rule[type], me, now, type, pl, size, s->h);
 	if(VM.pred == VP_COUNT_STOP && pred_of(s))
